@@ -38,6 +38,8 @@ def entries(repo):
 
 def check(ctx):
     repo = ctx.repo
+    from . import generic as _gen
+    _gen.language_traps(ctx, _gen.anchor_functions(repo, "C20"), "the property holds for every input, on every call")
     from . import generic
     generic.memo_projection(ctx, ("dataiter.vector", "dataiter.util", "dataiter.data_frame"),
                             "the rendering shows the dtype label of every column",
